@@ -144,3 +144,7 @@ pub(crate) fn merge_trees<S: IndexedTree>(
 
     Ok(tree_merged)
 }
+
+#[cfg(kani)]
+#[path = "/verif/harness/commands_merge.rs"]
+pub(crate) mod verif_harness;
